@@ -12,13 +12,16 @@ import Driver.C04
 import Driver.C18
 import Driver.C07
 import Driver.C09
+import Driver.C09Blk
 import Driver.C17
 import Driver.C11
 import Driver.C12R
+import Driver.C12P
 import Driver.C14
 import Driver.C14F
 import Driver.C08
 import Driver.C01S
+import Driver.C01G
 import Driver.C02Search
 
 def main (args : List String) : IO UInt32 := do
@@ -37,12 +40,15 @@ def main (args : List String) : IO UInt32 := do
   | "c18" :: _ => Driver.C18.main; return 0
   | "c07" :: _ => Driver.C07.main; return 0
   | "c09" :: _ => Driver.C09.main; return 0
+  | "c09blk" :: _ => Driver.C09Blk.main; return 0
   | "c17" :: _ => Driver.C17.main; return 0
   | "c11" :: _ => Driver.C11.main; return 0
   | "c12r" :: _ => Driver.C12R.main; return 0
+  | "c12p" :: _ => Driver.C12P.main; return 0
   | "c14" :: _ => Driver.C14.main; return 0
   | "c14f" :: _ => Driver.C14F.main; return 0
   | "c08" :: _ => Driver.C08.main; return 0
   | "c01s" :: _ => Driver.C01S.main; return 0
+  | "c01g" :: _ => Driver.C01G.main; return 0
   | "c02s" :: _ => Driver.C02Search.main; return 0
   | _ => IO.eprintln "usage: ssdriver <model> < ops"; return 2
